@@ -29,6 +29,7 @@ Rev(s) == [i \in 1..Len(s) |-> s[Len(s) + 1 - i]]
 NE(n, w) == IF Little THEN LEn(n, w) ELSE Rev(LEn(n, w))
 Zeros(n) == [i \in 1..n |-> 0]
 UNK == 256
+HWBYTE == 999
 TH0 == 300
 AH0 == 310
 TN == 320
@@ -66,6 +67,7 @@ MemFields(fields, vals, i, off) ==
 
 MemRepr(T, v) ==
   CASE T.k = "prim" -> v
+    [] T.k = "hw" -> [i \in 1..SizeOf(T) |-> HWBYTE]   \* a pointer and a length: must never reach a stream
     [] T.k \in {"unit", "rangefull", "phantom"} -> <<>>
     [] T.k \in {"array", "tuple"} -> Cat([i \in 1..T.n |-> MemRepr(T.elem, v[i])])
     [] T.k = "range" -> Cat([i \in 1..Len(v) |-> MemRepr(T.elem, v[i])])   \* only Copy ranges reach here
@@ -100,6 +102,7 @@ ZeroBlock(T, v, pos) == Zeros(PadTo(pos, Unit(T))) \o MemRepr(T, v)
 
 Encode(T, v, pos) ==
   CASE T.k = "prim" -> v
+    [] T.k = "hw" -> ZeroBlock(T, v, pos)
     [] T.k \in {"unit", "rangefull", "phantom"} -> <<>>
     [] T.k \in {"string", "boxstr"} -> NE(Len(v), UsizeBytes) \o v
     [] T.k \in SeqKinds ->
